@@ -222,6 +222,9 @@ func (in *Interp) reset(prefix []int) {
 	in.quotedOf = map[string]Term{}
 	in.rtypes = nil
 	in.ordTerms = nil
+	in.pureDeclared = nil
+	in.bufs = nil
+	in.pendingConc = nil
 	in.blobStrs = nil
 	in.blobByID = nil
 	in.hints = nil
